@@ -14,11 +14,11 @@ CHECKS = {
    note="password pairs are sampled, each pair is deterministic; error kind demanded for passwords and identities within the 65535-byte limit and for every context"),
  "C03": dict(cat="fault_enumeration", ref="DESIGN.md section 3 C03",
    technique="deterministic simulation with enumerated message corruption: every single-bit/single-byte substitution of the genuine finalization, XOR-cancelling pairs, transpositions, constants, random and cross-session finalizations delivered to every pending server state; Model A as oracle",
-   text="For every pending server state of a seeded world (two sessions of one user, another user, wrong-password, fake record, abandoned) the complete family of 8*Nh bit flips and 255*Nh byte substitutions of the genuine finalization is delivered, plus structured forgeries and every other session's finalization; only the matching one may succeed and must return the client's key.",
+   text="For every pending server state of a seeded world (two sessions of one user, another user, wrong-password, fake record, abandoned) the complete family of 8*Nh bit flips and 255*Nh byte substitutions of the genuine finalization is delivered, plus structured forgeries (incl. every proper prefix and suffix of the genuine MAC padded with 00/FF) and every other session's finalization; a finalization of the right length must reach the final step; only the matching one may succeed and must return the client's key.",
    note="the substitution family is exhaustive per state; states/worlds are seeded samples"),
  "C04": dict(cat="fault_enumeration", ref="DESIGN.md section 3 C04",
    technique="deterministic simulation with enumerated message corruption of the credential response at every offset, field splices from other sessions/users/servers/fake records, re-randomised fields, reflection; Model A as oracle",
-   text="For sampled honest logins every offset of the credential response is substituted (quick: 8 bit flips + 1 multi-bit value; thorough: all 255 values), all 255 other values of the first and last byte of both group-element fields, every field and field pair is spliced from six kinds of donor responses, fields are re-randomised/zeroed/rotated, XOR-cancelling pairs and transpositions are applied, the request's own blinded element is reflected, and one substitution per offset is made in the response's bincode and JSON encodings and delivered through that codec; the client must reject all of them and accept the genuine response delivered last.",
+   text="For sampled honest logins every offset of the credential response is substituted (quick: 8 bit flips + 1 multi-bit value; thorough: all 255 values), every proper prefix/suffix of each byte field padded with 00/FF, all 255 other values of the first and last byte of both group-element fields, every field and field pair is spliced from six kinds of donor responses, fields are re-randomised/zeroed/rotated, XOR-cancelling pairs and transpositions are applied, the request's own blinded element is reflected, and one substitution per offset is made in the response's bincode and JSON encodings and delivered through that codec; the client must reject all of them and accept the genuine response delivered last.",
    note="offset x value exhaustive only in the thorough tier; logins sampled; a corrupted delivery is identified by its bytes, so an accepted alias encoding is a violation (found and fixed F4 on the serde path, see known_findings.json)"),
  "C05": dict(cat="exploration", ref="DESIGN.md section 3 C05",
    technique="deterministic simulation: seeded parameter triples (registration / server login / client login) incl. boundary-shifted splits and crafted length-prefix collisions; Model A computes effective identities and decides accept/reject",
@@ -34,11 +34,11 @@ CHECKS = {
    note="routing exhaustive inside the population (quick samples 1/4 of client finishes on P-384/P-521 groups); populations, passwords, tapes, orders seeded"),
  "C08": dict(cat="exploration", ref="DESIGN.md section 3 C08",
    technique="deterministic simulation of histories interleaving fake (no record) and real logins; structural/equality/non-repetition oracles over the recorded history, candidate-key unmasking with harness HKDF, Model A for client/server outcomes",
-   text="Fake responses have the real length and decode; the evaluation element is equal with and without record for equal (setup, credential id, request); no other field ever repeats across the history; the fake response does not unmask under any key visible outside the call; the no-record answer draws at least Nh more bytes of tape than a with-record answer; crafted key shares (the password file's client key, the server's key) are answered or refused alike with and without the file; replayed real requests are answered freshly; degenerate 00/FF tape prefixes; the client reports InvalidLoginError; no finalization completes a fake server state.",
+   text="Fake responses have the real length and decode; the evaluation element is equal with and without record for equal (setup, credential id, request); no other field ever repeats across the history; the fake response does not unmask under any key visible outside the call; the no-record answer draws at least Nh more bytes of tape than a with-record answer; crafted key shares (the password file's client key, the server's key) are answered or refused alike with and without the file; replayed real requests are answered freshly; with an externally held key the seam call log is the same with and without a password file; degenerate 00/FF tape prefixes; the client reports InvalidLoginError; no finalization completes a fake server state.",
    note="unpredictability is tested as non-repetition / tape dependence only"),
  "C10": dict(cat="fault_enumeration", ref="DESIGN.md section 3 C10",
    technique="fault enumeration on stored/wire bytes: truncation/extension at every length, every leading-byte value and substitutions at every offset of every element/scalar field, non-reduced scalars, on the 11 native decoders x 20 suites; oracle decode-Ok implies canonical re-encoding",
-   text="Starting from valid encodings harvested from a seeded simulated run, each decoder is fed the complete families of wrong lengths and field corruptions; whatever decodes must re-encode to the input bytes and have the suite's fixed length; the same for every key, OPRF element and scalar field through bincode and JSON; every valid value stored through bincode/JSON and loaded again is the same value.",
+   text="Starting from valid encodings harvested from a seeded simulated run, each decoder is fed the complete families of wrong lengths (truncation, extension, one byte inserted at every offset) and field corruptions; whatever decodes must re-encode to the input bytes and have the suite's fixed length; the same for every key, OPRF element and scalar field through bincode and JSON; every valid value stored through bincode/JSON and loaded again is the same value.",
    note="families complete per harvested encoding; encodings are seeded samples; found and fixed F1/F2, confirms F4 (see known_findings.json)"),
  "C11": dict(cat="fault_enumeration", ref="DESIGN.md section 3 C11",
    technique="fault enumeration: an independently generated (Python big-integer) catalogue of invalid group elements/scalars planted in every element/scalar field of every message/state, decoded natively and through bincode and JSON; oracle decode returns Err",
@@ -51,7 +51,7 @@ CHECKS = {
 
  "C12": dict(cat="exploration", ref="DESIGN.md section 3 C12",
    technique="deterministic simulation with fault injection on every byte seam: seeded random and structure-preserving mutated encodings into 11 decoders x 3 codecs, decoded results pushed into the consuming protocol step, foreign well-formed items routed into every step, catalogue values planted in every field, oversize parameters; catch_unwind no-panic monitor + refusal oracle",
-   text="No library call may panic or hang on random bytes, mutated valid encodings (flip, rewrite, truncate, extend, delete, splice, field constants/swaps), planted invalid or extreme-valid group values, items of the wrong kind/session/suite delivered to any step, or parameter lengths 0..131072; lengths above 65535 must be refused by the call that takes them (identities, context) or by the finish step (password), never wrapped or truncated. The stand-alone key-pair API (PublicKey / PrivateKey / KeyPair decoders, direct and external key types, and the decoder of a server setup whose external key container is 200 bytes long) gets wrong-length, random, mutated and catalogue inputs; Argon2 instances with an explicit output length shorter/equal/longer than Nh run through registration and login. The no-panic monitor also runs over samples of all other checks' worlds.",
+   text="No library call may panic or hang on random bytes, inputs of every length 0..len+8, mutated valid encodings (flip, rewrite, truncate, extend, delete, splice, field constants/swaps), planted invalid or extreme-valid group values, items of the wrong kind/session/suite delivered to any step, or parameter lengths 0..131072; lengths above 65535 must be refused by the call that takes them (identities, context) or by the finish step (password), never wrapped or truncated. The stand-alone key-pair API (PublicKey / PrivateKey / KeyPair decoders, direct and external key types, and the decoder of a server setup whose external key container is 200 bytes long) gets wrong-length, random, mutated and catalogue inputs; Argon2 instances with an explicit output length shorter/equal/longer than Nh run through registration and login. The no-panic monitor also runs over samples of all other checks' worlds.",
    note="sampled; panics inside the harness are harness errors (exit 2); abusive RNGs and allocation failure not injected"),
  "C13": dict(cat="fault_enumeration", ref="DESIGN.md section 3 C13",
    technique="crash-point enumeration in a deterministic simulation: every assignment of {none, native, bincode, JSON} reloads to the five persistence points (1024 schedules), setup reload before the k-th server op, chained permanent reloads; label-derived tapes; oracle = event log equal to the uninterrupted run",
@@ -67,7 +67,7 @@ CHECKS = {
    note="tests tape-dependence and non-repetition, not unpredictability; sampled worlds"),
  "C18": dict(cat="fault_enumeration", ref="DESIGN.md section 3 C18",
    technique="deterministic simulation with the SecretKey trait as seam: SimHsm (raw-scalar and opaque-handle serialization) vs direct key on equal tapes compared event by event, seam call log, and the seam failing at the n-th fallible call for every op and every n",
-   text="Messages, password file, login state and keys are byte-identical with the key held directly or behind the external-key interface (setup compared on seed, fake key and public key), through memory, codecs and permanent reloads; only public_key/diffie_hellman/clone are called while serving; each injected failure — the key's own error type or one of the library's InternalError values — is returned exactly as LibraryError(that error) (or the serde error naming it), never Ok and never a panic.",
+   text="Messages, password file, login state and keys are byte-identical with the key held directly or behind the external-key interface (setup compared on seed, fake key and public key), through memory, codecs and permanent reloads, also while a stored setup whose stand-in key slot is unusable is being loaded; only public_key/diffie_hellman/clone are called while serving; each injected failure — the key's own error type or one of the library's InternalError values — is returned exactly as LibraryError(that error) (or the serde error naming it), never Ok and never a panic.",
    note="n enumerated completely per op; worlds seeded"),
 
  "C09": dict(cat="exploration", ref="DESIGN.md section 3 C09 and Appendix A",
